@@ -191,6 +191,8 @@ func (ref *subConnRef) deCallsInc() uint32 {
 	return atomic.AddUint32(&ref.deCalls, 1)
 }
 
+// gotResp must be called holding the balancer's mutex, like every access to
+// subConn, lastResp, deCalls, refreshing and refreshCnt.
 func (ref *subConnRef) gotResp() {
 	ref.lastResp = time.Now()
 	atomic.StoreUint32(&ref.deCalls, 0)
@@ -449,6 +451,14 @@ func (gb *gcpBalancer) getSubConnRoundRobin(ctx context.Context) *subConnRef {
 	return scRef
 }
 
+// getSubConn returns the current SubConn of the subConnRef (it changes when the
+// connection is refreshed).
+func (gb *gcpBalancer) getSubConn(ref *subConnRef) balancer.SubConn {
+	gb.mu.RLock()
+	defer gb.mu.RUnlock()
+	return ref.subConn
+}
+
 // bindSubConn binds the given affinity key to an existing subConnRef.
 func (gb *gcpBalancer) bindSubConn(bindKey string, sc balancer.SubConn) {
 	gb.mu.Lock()
@@ -607,11 +617,13 @@ func (gb *gcpBalancer) UpdateSubConnState(sc balancer.SubConn, scs balancer.SubC
 // refresh initiates a new SubConn for a specific subConnRef and starts connecting.
 // If the refresh is already initiated for the ref, then this is a no-op.
 func (gb *gcpBalancer) refresh(ref *subConnRef) {
-	if ref.refreshing {
-		return
-	}
 	gb.mu.Lock()
 	defer gb.mu.Unlock()
+	gb.refreshLocked(ref)
+}
+
+// refreshLocked is refresh for callers that already hold gb.mu.
+func (gb *gcpBalancer) refreshLocked(ref *subConnRef) {
 	if ref.refreshing {
 		return
 	}
